@@ -49,7 +49,7 @@
      * when local addresses are explicitly kept, whether a local host candidate
        is in fact kept;
      * candidates that must be kept but are written in a spelling pion itself
-       does not produce (styles "chrome", "upper"): textual preservation is not
+       does not produce (every style but "pion"): textual preservation is not
        demanded of them (their local counterparts must still be stripped);
      * a candidate attribute with an empty value ("a=candidate:") is re-marshalled
        by pion as "a=candidate": the line changes although nothing is lost, so
@@ -61,10 +61,10 @@
    The filter as the code performs it is modelled too (ImplKeeps/ImplStrip) and
    TLC checks that it conforms to the contract, leaves no local host
    candidate, and is idempotent. *)
-EXTENDS Integers, Sequences, FiniteSets, TLC, Json
+EXTENDS Integers, Sequences, FiniteSets, TLC, Json, Observed
 
 CONSTANTS
-  Mode,        \* "table" | "probe" | "full" | "raw" | "callsite" | "scripts"
+  Mode,        \* "table" | "probe" | "full" | "raw" | "callsite" | "scripts" | "observed"
   MaxCands,    \* probe family: candidates per section (1..3)
   NFill,       \* probe family: how many of the filler kinds are used (1..3)
   Layouts,     \* probe family: subset of {"one", "two-first", "two-second"}
@@ -115,13 +115,16 @@ Is4(a) == a.fam \in {"v4", "m4"}
 Private4(o)   == o[1] = 10 \/ (o[1] = 172 /\ o[2] \in 16..31) \/ (o[1] = 192 /\ o[2] = 168)   \* RFC 1918
 CGN4(o)       == o[1] = 100 /\ o[2] \in 64..127                                              \* RFC 6598
 LinkLocal4(o) == o[1] = 169 /\ o[2] = 254                                                    \* RFC 3927
-ULA6(a)       == a.hi \in 64512..65023                                                       \* RFC 4193 fc00::/7
-LinkLocal6(a) == a.hi \in 65152..65215                                                       \* fe80::/10
+(* "v6g" is an IPv6 address given by all eight groups (addresses observed at run time, module Observed) *)
+Hi6(a)        == IF a.fam = "v6g" THEN a.g[1] ELSE a.hi
+Groups6(a)    == IF a.fam = "v6g" THEN a.g ELSE <<a.hi, a.mid, a.mid, a.mid, a.mid, a.mid, a.mid, a.lo>>
+ULA6(a)       == Hi6(a) \in 64512..65023                                                     \* RFC 4193 fc00::/7
+LinkLocal6(a) == Hi6(a) \in 65152..65215                                                     \* fe80::/10
 
 (* what util.IsLocal is for (the "address classification" mechanism) *)
 IsLocalRFC(a) == IF Is4(a) THEN Private4(a.o) \/ CGN4(a.o) \/ LinkLocal4(a.o) ELSE ULA6(a)
-Loopback(a)    == IF Is4(a) THEN a.o[1] = 127 ELSE (a.hi = 0 /\ a.mid = 0 /\ a.lo = 1)
-Unspecified(a) == IF Is4(a) THEN a.o = <<0, 0, 0, 0>> ELSE (a.hi = 0 /\ a.mid = 0 /\ a.lo = 0)
+Loopback(a)    == IF Is4(a) THEN a.o[1] = 127 ELSE Groups6(a) = <<0, 0, 0, 0, 0, 0, 0, 1>>
+Unspecified(a) == IF Is4(a) THEN a.o = <<0, 0, 0, 0>> ELSE Groups6(a) = <<0, 0, 0, 0, 0, 0, 0, 0>>
 
 (* the property's list *)
 MustStrip(a) == IsLocalRFC(a) \/ Loopback(a) \/ Unspecified(a)
@@ -153,10 +156,30 @@ IsLocalExpect(a) ==
 -----------------------------------------------------------------------------
 (* Candidates. *)
 Types == {"host", "srflx", "prflx", "relay"}
-(* style: "pion" plain, "chrome" with extension attributes (generation, ufrag,
-   network-id), "upper" upper-case transport token; tr: udp | tcp (host only,
-   with tcptype) *)
+(* style: the spelling of the line.  "pion" is what pion itself writes;
+   "chrome" has extension attributes (generation, ufrag, network-id), "upper"
+   an upper-case transport token; tr: udp | tcp (host only, with tcptype).
+   LenientStyles are further spellings that the parser the code uses
+   (pion/ice UnmarshalCandidate: strings.Fields, an inserted empty foundation
+   when the value starts with a blank, field 8 is the type whatever field 7
+   says, everything after "raddr"/"tcptype" optional) recognises as a HOST
+   candidate although they are not in the RFC 8839 grammar:
+     no-foundation    "a=candidate: 1 udp ..."   empty foundation (seen in the wild)
+     keyword-type     "... <port> type host"     another word where "typ" should be
+     keyword-upper    "... <port> TYP host"
+     tabs             fields separated by tabs
+     multispace       several blanks between fields
+     trailing-blank   blanks after the last field
+     host-raddr       a host candidate that carries raddr/rport
+     tcp-passive      tcp host candidate, tcptype passive
+     tcp-unknown      tcp host candidate with an unknown tcptype word
+     port-zero        port 0, component 2
+   The contract is about what that parser recognises: such a line with a local
+   address IS a local host candidate and must be stripped. *)
 WF(typ, tr, style, addr) == [typ |-> typ, tr |-> tr, style |-> style, addr |-> addr]
+LenientStyles == {"no-foundation", "keyword-type", "keyword-upper", "tabs", "multispace", "trailing-blank",
+                  "host-raddr", "port-zero"}
+LenientTcpStyles == {"tcp-passive", "tcp-unknown"}
 
 MalformedKinds ==
   {"no-colon", "one-token", "seven-tokens", "port-not-a-number", "port-out-of-range",
@@ -217,7 +240,8 @@ NoProbe == MF("none")
 Kinds ==
   {WF(t, "udp", "pion", a) : t \in Types, a \in Addrs}
   \cup {WF("host", "tcp", "pion", a) : a \in Addrs}
-  \cup {WF("host", "udp", s, a) : s \in {"chrome", "upper"}, a \in Addrs}
+  \cup {WF("host", "udp", s, a) : s \in {"chrome", "upper"} \cup LenientStyles, a \in Addrs}
+  \cup {WF("host", "tcp", s, a) : s \in LenientTcpStyles, a \in Addrs}
   \cup {MF(k) : k \in MalformedKinds}
 
 FillSeq == << WF("host", "udp", "pion", V4(8, 8, 8, 8)),          \* public host: kept
@@ -259,6 +283,10 @@ InitFull ==
      \/ desc = [sess |-> <<>>, media |-> <<>>]          \* no media section at all
 
 InitTable == Mode = "table" /\ probe \in Kinds /\ desc = [sess |-> <<>>, media |-> <<>>] /\ CallIdle
+(* the same table for the addresses the real code produced in this run *)
+InitObserved ==
+  /\ Mode = "observed" /\ desc = [sess |-> <<>>, media |-> <<>>] /\ CallIdle
+  /\ probe \in {WF(t, "udp", "pion", a) : t \in Types, a \in ObservedAddrs} \cup {WF("host", "tcp", "pion", a) : a \in ObservedAddrs}
 
 (* text that is not a description: only totality is demanded *)
 RawClasses ==
@@ -311,7 +339,7 @@ NextCall == Attempt \/ Retry \/ GiveUp
 EveryAttemptConforms == \A i \in DOMAIN sent : Conforms(desc, sent[i], keepl)
 NothingLocalEverSent == keepl \/ \A i \in DOMAIN sent : NoLocalHostLeft(sent[i])
 
-Init == InitProbe \/ InitFull \/ InitTable \/ InitRaw \/ InitCall \/ InitScripts
+Init == InitProbe \/ InitFull \/ InitTable \/ InitObserved \/ InitRaw \/ InitCall \/ InitScripts
 Stutter == UNCHANGED vars
 Spec == Init /\ [][Stutter]_vars
 SpecCall == Init /\ [][NextCall]_vars
@@ -346,7 +374,7 @@ Emit ==
   CASE Mode \in {"probe", "full"} ->
          PrintT(ToJson([sess |-> AnnSeq(desc.sess, "session"),
                         media |-> [i \in DOMAIN desc.media |-> AnnSeq(desc.media[i], "media")]]))
-    [] Mode = "table" ->
+    [] Mode \in {"table", "observed"} ->
          PrintT(ToJson([c |-> probe, strip |-> Fate(probe, "media", FALSE), keeplocal |-> Fate(probe, "media", TRUE),
                         range |-> IF IsWF(probe) THEN RangeName(probe.addr) ELSE "-",
                         islocal |-> IF IsWF(probe) THEN IsLocalExpect(probe.addr) ELSE "any"]))
